@@ -188,6 +188,59 @@ var cases = map[string]func() string{
 	},
 }
 
+type d5A struct {
+	X     int32  `frugal:"1,default,i32"`
+	Other []*d5B `frugal:"3,optional,list<d5B>"`
+	Leaf  *d5Bad `frugal:"4,optional,d5Bad"`
+}
+type d5Bad struct {
+	Bad uint32 `frugal:"1,default,i32"`
+}
+type d5B struct {
+	X     int32  `frugal:"1,default,i32"`
+	Other []*d5A `frugal:"3,optional,list<d5A>"`
+}
+
+func init() {
+	cases["D5"] = func() string {
+		buf := make([]byte, 100)
+		for i := 0; i < 3; i++ {
+			r := try(func() (int, error) { return frugal.EncodeObject(buf, nil, &d5B{X: 1, Other: []*d5A{{X: 2}}}) })
+			if r.pan != nil {
+				return fmt.Sprintf("call %d panics: %v", i+1, r.pan)
+			}
+			if r.err == nil {
+				return fmt.Sprintf("call %d accepts a type from which an invalid definition is reachable (n=%d); the first call rejected it", i+1, r.n)
+			}
+		}
+		return ""
+	}
+	cases["D11"] = func() string {
+		type T struct {
+			A int32 `frugal:"65535,default,i32"`
+		}
+		r := try(func() (int, error) { return frugal.EncodeObject(make([]byte, 16), nil, &T{A: 1}) })
+		if r.pan != nil || r.err != nil {
+			return fmt.Sprintf("struct with field id 65535: %v %v", r.pan, r.err)
+		}
+		return ""
+	}
+	cases["D12"] = func() string {
+		type T struct {
+			A int64 `frugal:"1,default,i64"`
+		}
+		in := []byte{2, 0, 1, 0xff, 0xff, 0xff, 0xff, 0xff, 0xff, 0xff, 0xff, 0}
+		r := try(func() (int, error) { return frugal.DecodeObject(in, &T{}) })
+		if r.pan != nil {
+			return fmt.Sprintf("DecodeObject panics on a corrupted type byte: %v", r.pan)
+		}
+		if r.err == nil {
+			return "corrupted input accepted"
+		}
+		return ""
+	}
+}
+
 var _ = reflect.TypeOf
 
 func main() {
